@@ -42,8 +42,15 @@ class Tok(Term):
     def astype(self, *a, **k):
         return self
 
-    def flatten(self):
+    def flatten(self, *a, **k):
         return self
+
+    ravel = squeeze = flatten
+
+    def reshape(self, *a, **k):
+        if a in ((-1,), ((-1,),)) and not k:
+            return self
+        raise Unsupported("reshape other than reshape(-1)")
 
     @property
     def dtype(self):
